@@ -76,6 +76,14 @@ def cases(tier, seed):
                             cfg=S.cfg_for(setup, agg, "zero" if d == "10" else "drop", 100, office="H"),
                         )
                     )
+    # outlier models enabled (the default of the public API): 24 reporting units, one of them an outlier for both the
+    # turnout-factor and the margin model, one for the margin model only
+    for setup in ("bs1", "np1", "ga1"):
+        for st_loc in S.probe_types(statuses=["reporting", "nonrep_partial", "unexpected", "zero_baseline", "unit_blocklisted"], locations=["pop0", "newcounty"]):
+            for which in ("both", "turnout", "margin"):
+                cfg = S.cfg_for(setup, "all", "drop", 100)
+                cfg["model_parameters"] = dict(cfg["model_parameters"], fit_turnout_outlier_model=which in ("both", "turnout"), fit_margin_outlier_model=which in ("both", "margin"))
+                out.append(dict(seed=seed, bg={"n": 24, "layout": "AA2", "wild": 2}, probes=[list(st_loc)], cfg=cfg))
     if tier == "thorough":
         rtypes = S.probe_types(
             statuses=["nonrep_partial", "unexpected", "zero_baseline", "unit_blocklisted", "tf_at_upper", "missing"],
@@ -96,7 +104,19 @@ def _close(a, b, rel=1e-9):
 
 def check_tables(units, cfg, tables, V, cov):
     """Shared with C11.  Appends violation dicts to V."""
-    cats = R.categorize(units, cfg)
+    flagged = None
+    mp = cfg.get("model_parameters", {})
+    if (mp.get("fit_turnout_outlier_model") or mp.get("fit_margin_outlier_model")) and "unit" in cfg["aggregates"]:
+        # which units an enabled outlier model flags is taken from the run (first mention); everything else about
+        # them - exactly one row, one category, where their votes are counted - is still checked
+        flagged = {}
+        catcols0 = [c for c in tables["unit_data"]["columns"] if c.startswith("unit_category")]
+        for r in E.tab_rows(tables["unit_data"]):
+            for c in catcols0:
+                if r[c] in R.OUTLIER_CATEGORIES:
+                    flagged.setdefault(r["geographic_unit_fips"], r[c])
+        cov["outlier_flagged_units"] += len(flagged)
+    cats = R.categorize(units, cfg, flagged)
     pm = cfg["pi_method"]
 
     def viol(kind, msg):
